@@ -23,6 +23,9 @@ type Header struct {
 func be16(v uint16) []byte { return []byte{byte(v >> 8), byte(v)} }
 func be24(v uint32) []byte { return []byte{byte(v >> 16), byte(v >> 8), byte(v)} }
 func be32(v uint32) []byte { return []byte{byte(v >> 24), byte(v >> 16), byte(v >> 8), byte(v)} }
+
+// BE32 is the big-endian encoding of v.
+func BE32(v uint32) []byte { return be32(v) }
 func be64(v uint64) []byte {
 	return append(be32(uint32(v>>32)), be32(uint32(v))...)
 }
